@@ -841,7 +841,9 @@ func (s *Identity) PrefixedName() string {
 	return fmt.Sprintf("%s:%s", RootNode(s).GetPrefix(), s.Name)
 }
 
-// modulePrefixedName returns the module-qualified name for the identity.
+// modulePrefixedName returns the module-qualified name for the identity. The
+// module is named in full (name@revision), so that the identities of two
+// loaded revisions of one module stay apart.
 func (s *Identity) modulePrefixedName() string {
 	m := module(s)
 	if m == nil {
@@ -849,7 +851,7 @@ func (s *Identity) modulePrefixedName() string {
 		// loaded.
 		m = RootNode(s)
 	}
-	return fmt.Sprintf("%s:%s", m.Name, s.Name)
+	return fmt.Sprintf("%s:%s", m.FullName(), s.Name)
 }
 
 // IsDefined behaves the same as the implementation for Enum - it returns
